@@ -237,6 +237,10 @@ func checkC08(sc *Scenario) *CheckOut {
 	if res.W.regPanic != "" {
 		return out
 	}
+	if res.Abandoned {
+		out.Faults = map[string]int64{"pre-run-abandoned": 1}
+		return out
+	}
 	if res.Overrun {
 		out.Viol = append(out.Viol, Violation{"C08", "no-progress", "run exceeded its step bound", ""})
 		return out
@@ -522,4 +526,8 @@ func init() {
 	register(&Profile{Prop: "C08", Name: "single", Quick: 60000, Thorough: 1500000, Gen: genC08(false, false), Check: checkC08, Rule: rule})
 	register(&Profile{Prop: "C08", Name: "single-faults", Quick: 60000, Thorough: 1500000, Gen: genC08(true, false), Check: checkC08, Rule: rule, Faulty: true})
 	register(&Profile{Prop: "C08", Name: "concurrent-faults", Quick: 18000, Thorough: 400000, Gen: genC08(true, true), Check: checkC08, Rule: rule, Faulty: true})
+	register(&Profile{Prop: "C08", Name: "concurrent-pre", Pre: true, Quick: 12000, Thorough: 200000, Gen: preempt(genC08(true, true)), Check: checkC08,
+		Rule: "as concurrent-faults; a task can be preempted before every statement of rux (instrumented copy)"})
+	register(&Profile{Prop: "C08", Name: "concurrent-race", Race: true, Quick: 1200, Thorough: 30000, Gen: coarseRace(genC08(true, true)), Check: checkC08,
+		Rule: "as concurrent-faults, executed under the race detector with coarse schedules", Faulty: true})
 }
